@@ -311,6 +311,7 @@ Section Persist.
   Variable parsef : str -> option F.       (* np.float64(token) *)
   Variable fmt8 : Z -> str.                (* "{:08d}".format(n) *)
   Variable parse_int : str -> option Z.    (* int(s) *)
+  Variable fmtd : Z -> str.                (* "{}".format(n) *)
 
   Record pfilter := mkpf {
     f_id : Z; f_ax : str; f_ay : str; f_name : str; f_inv : bool;
@@ -443,7 +444,7 @@ Section Persist.
         | LOk a =>
             match a_x a, a_y a with
             | Some ax, Some ay =>
-                if has_dup_key (a_pts a) then (LOther, r)
+                if has_dup_key (a_pts a) then (LValueError, r)   (* sort compares arrays *)
                 else
                   let rows := sort_keys (a_pts a) in
                   if negb (same_lengths rows) then (LValueError, r)
@@ -460,7 +461,7 @@ Section Persist.
                             | Some pts =>
                                 let name := match a_name a with
                                             | Some n => n
-                                            | None => zs "polygon filter " ++ fmt8 uid'
+                                            | None => zs "polygon filter " ++ fmtd uid'
                                             end in
                                 (LOk (mkpf uid' ax ay name (a_inv a) pts),
                                  (fst r' ++ [uid'], snd r'))
@@ -521,6 +522,7 @@ Definition parse_int_c (s : str) : option Z :=
   | 43 :: d => parse_digits d 0
   | d => parse_digits d 0
   end.
+Definition dec_signed (v : Z) : str := if v <? 0 then 45 :: dec (- v) else dec v.
 (* coordinates of the executable instance are integers written in decimal *)
 Definition fmtf_c (v : Z) : str := if v <? 0 then 45 :: dec (- v) else dec v.
 Definition parsef_c (s : str) : option Z :=
@@ -554,4 +556,4 @@ Definition run_save (fs : list (Z * str * str * str * Z * list (Z * Z))) : list 
 (* case: (file text, ids registered before, counter before) -> import_all *)
 Definition run_import (c : str * list Z * Z) : list Z :=
   let '(text, ids, counter) := c in
-  enc_res (import_all Z parsef_c dec8 parse_int_c text (ids, counter)).
+  enc_res (import_all Z parsef_c parse_int_c dec_signed text (ids, counter)).
